@@ -134,7 +134,7 @@ BRIDGE = {
         "terminate_live_bridge", "raw_first_bridge", "first_sendack_bridge", "icv_bridge", "encrypt_bridge",
         "agg_pass_bridge", "agg_loop_bridge", "agg_acks_bridge", "aggregate_bridge", "collect_bridge", "misc_bridge",
         "gen_late_bind_never_leaks", "gen_collect_frame_bound")],
-    "properties": ["C07", "C09", "C10"],
+    "properties": ["C07", "C09", "C10", "C18"],
 }
 NAMES = ["SYMM", "PAX", "AGF", "UI", "CONNECT", "DISC", "CC", "DM", "FRMR", "SNL", "DPS", "I", "RR", "RNR", "0010", "1111"]
 
